@@ -330,12 +330,45 @@ def gen_long_history_case(run_seed: int, tier: str) -> dict[str, Any]:
     return {"check": CHECK, "run_seed": run_seed, "shape": "long_history", "untraced": True, "epochs": [{"threads": [calls]}], "policy": {"kind": "none"}, "faults": [], "granularity": "call", "est_steps": 1000, "step_cap": 0}
 
 
+def gen_deep_case(run_seed: int, tier: str) -> dict[str, Any]:
+    """
+    Two or three threads, one of them formatting a list nested deeper than the default recursion
+    limit allows, pre-empted only at the call/return of the public entry points ("api"
+    granularity: such a document makes millions of internal calls). Process-wide interpreter
+    settings (recursion limit, switch interval, locale ...) that a call changes and restores
+    are shared state too.
+    """
+    w = sub_rng(run_seed, "workload")
+    base = corpus.gen_options(w, allow_plaintext=False)
+    base["plaintext"] = False
+    small = lambda: {"api": w.choice(["reformat_text", "fill_markdown"]), "text": w.choice([corpus.gen_plain_doc(w), corpus.gen_sentence_mix(w), w.choice(corpus.PROBE_DOCS)]), "kw": None}  # noqa: E731
+    threads: list[list[dict[str, Any]]] = []
+    deep_t = w.randrange(2)
+    for t in range(w.choice([2, 2, 3])):
+        calls = []
+        for _ in range(w.randint(1, 3)):
+            c = small()
+            o = dict(base)
+            if c["api"] == "fill_markdown":
+                del o["plaintext"]
+            c["kw"] = o
+            calls.append(c)
+        if t == deep_t:
+            calls.insert(w.randint(0, len(calls)), {"api": "reformat_text", "text": corpus.gen_deep_doc(w), "kw": dict(base)})
+        threads.append(calls)
+    p = sub_rng(run_seed, "policy")
+    policy = {"kind": "bernoulli", "seed": p.getrandbits(48), "p": p.choice([1 / 2, 1 / 3, 1 / 6])}
+    return {"check": CHECK, "run_seed": run_seed, "shape": "deep_concurrent", "epochs": [{"threads": threads}], "policy": policy, "faults": [], "granularity": "api", "est_steps": 500, "step_cap": 200000}
+
+
 def gen_case(run_seed: int, tier: str, index: int | None = None) -> dict[str, Any]:
     if index is not None and index % SWEEP_EVERY == SWEEP_EVERY - 1:
         return gen_sweep_case(run_seed, tier, index // SWEEP_EVERY)
-    shape = sub_rng(run_seed, "shape").choices(["mixed", "abort_probe", "history_probe", "long_history"], [63, 20, 15, 2])[0]
+    shape = sub_rng(run_seed, "shape").choices(["mixed", "abort_probe", "history_probe", "long_history", "deep_concurrent"], [61, 20, 15, 2, 2])[0]
     if shape == "long_history":
         return gen_long_history_case(run_seed, tier)
+    if shape == "deep_concurrent":
+        return gen_deep_case(run_seed, tier)
     if shape != "mixed":
         return gen_probe_case(run_seed, tier, shape)
     w = sub_rng(run_seed, "workload")
@@ -349,6 +382,7 @@ def gen_case(run_seed: int, tier: str, index: int | None = None) -> dict[str, An
         pool.append(corpus.gen_doc(w))
     for _ in range(w.randint(0, 3)):
         pool.append(corpus.gen_sentence_mix(w))
+
     pool.append(corpus.DISCRIMINATING_DOC)
     base = corpus.gen_options(w, allow_plaintext=False) if w.random() < 0.7 else None
     total_calls = 0
@@ -838,9 +872,13 @@ def minimise(env: Env, case: dict[str, Any], fp: str, budget_evals: int = 600) -
 
     budget = [budget_evals]
 
+    import time as _time
+
+    deadline = _time.time() + float(os.environ.get("VERIF_MINIMISE_BUDGET_S", "150"))
+
     def fails(c: dict[str, Any]) -> bool:
-        if budget[0] <= 0:
-            return False
+        if budget[0] <= 0 or _time.time() > deadline:
+            return False  # out of evaluations or wall-clock: keep the best case found so far
         budget[0] -= 1
         env.ensure_refs(case_calls(c))
         r = env.run(c)
